@@ -287,6 +287,9 @@ func (e *env) runServer(nominal *session, T []byte, mode string) (v verdict) {
 	} else if cp == len(T) {
 		v.SegKind = "cut-in-" + G.kindAt(cp)
 	}
+	if !base.V.Held {
+		v.SegKind = "foreign-key"
+	}
 	hsIntact := base.V.Held && cp >= G.HsEnd
 	fixIntact := base.V.Held && cp >= G.FixEnd
 
@@ -491,19 +494,16 @@ func (e *env) runCase(side string, nominal *session, T []byte, mode string) verd
 	return e.runClient(nominal, T, mode)
 }
 
-func signature(side string, v verdict, o op) string {
-	name := o.Name
-	if o.Other != "" {
-		label := o.Other
-		if i := strings.IndexByte(label, '-'); i >= 0 {
-			label = label[i+1:]
-		}
-		name += "[" + label + "]"
-	}
+// signature names the failing shape: endpoint, what went wrong, and the kind
+// of structural segment holding the first byte that differs from the genuine
+// stream ("foreign-key" when the whole handshake was made under keys the server
+// does not hold).  Operator instance, offsets and configuration are run data
+// and go into the description and the replay record instead.
+func signature(side string, v verdict) string {
 	if strings.HasPrefix(v.Fail, "after-error:") {
 		return side + ":" + v.Fail
 	}
-	return side + ":" + v.Fail + ":" + name + "@" + v.SegKind
+	return side + ":" + v.Fail + "@" + strings.TrimPrefix(v.SegKind, "cut-in-")
 }
 
 func runUnit(u unit, thorough bool) *unitResult {
@@ -568,7 +568,7 @@ func runUnit(u unit, thorough bool) *unitResult {
 				if v.Fail == "" {
 					continue
 				}
-				sig := signature(u.Side, v, o)
+				sig := signature(u.Side, v)
 				if seenSig[sig] {
 					continue
 				}
@@ -780,7 +780,7 @@ func main() {
 		if stride := len(units)/12 + 1; i%stride == 0 && len(r.Samples) > 0 {
 			c.Sample(r.Samples[(i/stride)%len(r.Samples)])
 		}
-		if u.Cfg == 13 && u.Side == "server" { // aes-128, EIH, prefix, no fallback, segmented: the widest layout
+		if u.Cfg == 12 && u.Side == "server" { // aes-128, EIH, prefix, no fallback: the layout with every kind of segment
 			shapeInfo[u.Shape] = r.Segments
 		}
 		for _, v := range r.Viols {
@@ -802,16 +802,18 @@ func main() {
 		}
 	}
 	c.Extra["alphabet"] = map[string]any{
-		"configurations":            cfgNames,
-		"session_shapes":            shapeNames,
-		"sessions":                  "per configuration and shape: X0 (user alice / the PSK), X1 (same key, other salt and data), with identity headers also X2 (user bob, held), F1 (key the server does not hold), with identity headers also F2 (held user key under a foreign identity key)",
-		"operators":                 "id; cut(offset); flip(offset,bit); app(1|18 garbage bytes); drop/dup(segment, 1|2 segments); swap(i,j) all segment pairs; swap2(i) adjacent segment pairs; ins/repl(segment) garbage of the segment's size; reflect (opposite direction); subst(other session); splice(a,b,other) head of base up to boundary a + tail of other from boundary b; rsplice (client) head of other + tail of base",
-		"bits":                      harness.Pick(c, "0,7", "0..7"),
-		"cut_offsets":               harness.Pick(c, "every offset of the first 4096 bytes, then every segment boundary -1/0/+1", "every offset of the first 8192 bytes, then every segment boundary -1/0/+1"),
-		"splice_pairs":              harness.Pick(c, "boundary pairs (a,b) with |a-b|<=1", "all boundary pairs"),
-		"full_operator_set_on":      harness.Pick(c, "X0; other sessions: id, subst, splice", "X0 and X2; other sessions: id, subst, splice"),
-		"reader_modes":              modes,
-		"segments_of_widest_layout": shapeInfo,
+		"configurations":                       cfgNames,
+		"session_shapes":                       shapeNames,
+		"sessions":                             "per configuration and shape: X0 (user alice / the PSK), X1 (same key, other salt and data), with identity headers also X2 (user bob, held), F1 (key the server does not hold), with identity headers also F2 (held user key under a foreign identity key)",
+		"operators":                            "id; cut(offset); flip(offset,bit); app(1|18 garbage bytes); drop/dup(segment, 1|2 segments); swap(i,j) all segment pairs; swap2(i) adjacent segment pairs; ins/repl(segment) garbage of the segment's size; reflect (opposite direction); subst(other session); splice(a,b,other) head of base up to boundary a + tail of other from boundary b; rsplice (client) head of other + tail of base",
+		"flip_density":                         harness.Pick(c, "all 8 bits of every byte of prefix, salt, identity header, header chunks, length chunks and of variable-header/payload chunks up to 64 bytes; longer ones: bit 0 of every byte (up to 1024 bytes) and all bits of first 4, middle, last 2 body bytes and the 16 tag bytes", "all 8 bits of every byte of segments up to 4096 bytes; longer segments: all bits of first 16, middle, last 4 body bytes, all 16 tag bytes, bit 0 of every 251st byte; plus flip2 = two simultaneous flips at first/last bytes of every two segments"),
+		"cut_offsets":                          harness.Pick(c, "every offset of the first 4096 bytes, then every segment boundary -1/0/+1", "every offset of the first 8192 bytes, then every segment boundary -1/0/+1"),
+		"splice_pairs":                         "all boundary pairs (a,b) of base and other session",
+		"full_operator_set_on":                 harness.Pick(c, "X0; other sessions as base (server side): id, subst, splice", "X0, X1 and X2 (both sides); F1/F2 as base (server side): id, subst, splice"),
+		"shapes_per_configuration":             harness.Pick(c, "seg0 configurations: all quick shapes; seg1 configurations: basic3 and tiny2", "all shapes for all configurations"),
+		"reads_after_first_error":              afterErrorReads,
+		"reader_modes":                         modes,
+		"segments_of_layout_aes128_eih_prefix": shapeInfo,
 	}
 	c.Extra["units"] = len(units)
 	c.Finish()
